@@ -514,14 +514,21 @@ func (fr *Frame) loadLocQuiet(st *State, l *Loc, t types.Type) Val {
 	}
 	switch kindOf(t) {
 	case KInt, KRef, KMap, KIface, KFunc, KArr:
-		return Val{K: kindOf(t), T: t, A: fr.readLeaf(st, l, "", "Int")}
+		x := fr.readLeaf(st, l, "", "Int")
+		if k := kindOf(t); k == KRef || k == KMap || k == KArr {
+			// as in loadLoc: a reference stored in an entry-state object denotes an entry-state object
+			fr.markOld(x)
+		}
+		return Val{K: kindOf(t), T: t, A: x}
 	case KBool:
 		return Val{K: KBool, T: t, A: fr.readLeaf(st, l, "", "Bool")}
 	case KStr:
 		return Val{K: KStr, T: t, A: fr.readLeaf(st, l, "", "Str")}
 	case KSlice:
-		return Val{K: KSlice, T: t, A: fr.readLeaf(st, l, "#ref", "Int"), Off: fr.readLeaf(st, l, "#off", "Int"),
+		sv := Val{K: KSlice, T: t, A: fr.readLeaf(st, l, "#ref", "Int"), Off: fr.readLeaf(st, l, "#off", "Int"),
 			Len: fr.readLeaf(st, l, "#len", "Int"), Cap: fr.readLeaf(st, l, "#cap", "Int")}
+		fr.markOld(sv.A)
+		return sv
 	case KStruct:
 		stt := t.Underlying().(*types.Struct)
 		res := Val{K: KStruct, T: t}
